@@ -144,6 +144,11 @@ def c15_scenario(bins, idx, kill_point, flt, rng):
                     steps.append({"op": "sleep", "ms": 560 if t == "app" else 40})
                     steps.append({"op": "out", "text": "%s out %d\n" % (t, i)})
                     steps.append({"op": "out", "stream": "stderr", "text": "%s err %d\n" % (t, i)})
+                # the output of some tasks ends in the middle of a line (no trailing newline), on either stream
+                if (idx + len(t)) % 2 == 0:
+                    steps.append({"op": "out", "text": "%s out unterminated" % t})
+                if (idx + len(t)) % 3 == 0:
+                    steps.append({"op": "out", "stream": "stderr", "text": "%s err unterminated" % t})
                 steps.append({"op": "exit", "code": 0})
                 fx.add_cmd(t, "build", steps, ext=".sh")
         outcomes = []
@@ -209,7 +214,7 @@ def c15_scenario(bins, idx, kill_point, flt, rng):
 
 
 # ------------------------------------------------------------------ C20
-def c20_scenario(bins, idx, nt, flt, rng, heavy=False):
+def c20_scenario(bins, idx, nt, flt, rng, heavy=False, stall=False):
     names = runlib.NAMES
     targets = [{"path": names[i % len(names)] + ("" if i < len(names) else str(i))} for i in range(nt)]
     tnames = [t["path"] for t in targets]
@@ -219,17 +224,20 @@ def c20_scenario(bins, idx, nt, flt, rng, heavy=False):
         for t in tnames:
             for c in cmds:
                 steps = []
+                # text is not only ASCII: accented Latin, CJK and emoji (2-, 3- and 4-byte sequences), in bursts larger
+                # than any relay buffer
+                wide = " héllo wörld 日本語のテキスト 🙂🚀" if idx % 2 == 1 else ""
                 if heavy:
                     # thousands of lines per flush on both streams at once: one flush spans many socket writes
                     n = rng.choice([600, 1500, 4000])
                     for s in ("stdout", "stderr"):
-                        steps.append({"op": "out", "stream": s, "text": "".join("%s %s %s heavy %d\n" % (t, c, s, i) for i in range(n))})
+                        steps.append({"op": "out", "stream": s, "text": "".join("%s %s %s heavy %d%s\n" % (t, c, s, i, wide) for i in range(n))})
                     if t == tnames[0] and c == cmds[0]:
                         # one very long text line (several MiB) between short ones
                         steps.append({"op": "out", "text": "%s %s before long\n%s\n%s %s after long\n" % (t, c, "L" * (3 * 1024 * 1024 + 17), t, c)})
                 for burst in range(rng.randint(1, 3)):
                     for i in range(rng.randint(1, 6)):
-                        steps.append({"op": "out", "text": "%s %s out b%d l%d %s\n" % (t, c, burst, i, "x" * rng.randint(0, 60))})
+                        steps.append({"op": "out", "text": "%s %s out b%d l%d %s%s\n" % (t, c, burst, i, "x" * rng.randint(0, 60), wide)})
                         if rng.random() < 0.6:
                             steps.append({"op": "out", "stream": "stderr", "text": "%s %s err b%d l%d\n" % (t, c, burst, i)})
                     steps.append({"op": "sleep", "ms": rng.choice([30, 200, 520, 610])})
@@ -242,7 +250,27 @@ def c20_scenario(bins, idx, nt, flt, rng, heavy=False):
         lst = Listener(fx, f2)
         if not lst.ready:
             raise vlib.ToolError("listener did not come up")
-        res = fx.monorail(["run", "-c"] + cmds, timeout=120)
+        if stall:
+            # the listener stops reading for a few seconds in the middle of the run (suspended terminal, blocked pipe
+            # consumer) while the tasks have megabytes to say, then resumes: nothing may be lost or cut
+            import signal
+            pr = fx.spawn(["run", "-c"] + cmds)
+            deadline = time.time() + 30
+            while os.path.getsize(lst.path) < 400 and time.time() < deadline and pr.poll() is None:
+                time.sleep(0.01)
+            os.killpg(lst.p.pid, signal.SIGSTOP)
+            time.sleep(3.4)
+            os.killpg(lst.p.pid, signal.SIGCONT)
+            try:
+                so, se = pr.communicate(timeout=170)
+            except subprocess.TimeoutExpired:
+                fx.kill_group(pr)
+                raise vlib.ToolError("run did not finish after the listener resumed")
+            if pr.returncode < 0:
+                raise vlib.ToolError("run was killed by signal %d" % -pr.returncode)
+            res = fx._result(pr.returncode, so, se)
+        else:
+            res = fx.monorail(["run", "-c"] + cmds, timeout=120)
         raw = lst.drain_and_kill()
         logs = stored_logs(bins, res, tnames, cmds)
         text = raw.decode("utf-8", "replace")
@@ -309,10 +337,15 @@ def run(pid, tier):
         sizes = [2, 3, 5, 8, 12, 20, 30]
         for i in range(n):
             jobs.append(("c20", i, sizes[i % len(sizes)], FILTERS[i % len(FILTERS)]))
+    if pid == "C20":
+        for k in range(1 if tier == "quick" else 8):
+            jobs.append(("c20stall", 1001 + 2 * k, 4 + k % 3, FILTERS[0 if k % 2 == 0 else 1]))
     def one(j):
         rr = random.Random(chk.seed * 53 + j[1])
         if j[0] == "c15":
             return c15_scenario(bins, j[1], j[2], j[3], rr)
+        if j[0] == "c20stall":
+            return c20_scenario(bins, j[1], j[2], j[3], rr, heavy=True, stall=True)
         return c20_scenario(bins, j[1], j[2], j[3], rr, heavy=(j[1] % 4 == 1))
     with ThreadPoolExecutor(max_workers=8) as ex:
         recs = list(ex.map(one, jobs))
